@@ -114,6 +114,17 @@ def gen_case(rng):
             m = [q(F(rng.choice([0, 3, 4, -3, -4]))) for _ in range(nd)]
         return [tok[0], q(F(rng.randint(-6, 6), rng.choice([1, 2]))), m]
 
+    # `tenths`: objectives k/10 -- not representable, so that what the archive holds (the value rounded to its dtype)
+    # differs from what the caller passed, and frequent exact ties: every comparison of a candidate with stored
+    # objectives (competition, the count of neighbours with a lower objective) is between values of the archive's dtype
+    if rng.random() < 0.25:
+        case["tenths"] = True
+        plain_row = row
+
+        def row():      # noqa: F811
+            t, o, m = plain_row()
+            return [t, q(F(rng.randint(-5, 5), 10)), m]
+
     # `far`: a float32 archive whose measures sit around +-2^20 (one ulp = 1/8) while the candidates are submitted as
     # float64 values on a 1/16 grid: the archive judges and stores the value *rounded to its dtype* (batch and single
     # alike), so an unrounded comparison is off by up to 1/16 against thresholds of 7/10 .. 5
